@@ -491,7 +491,8 @@ def get_async(
                 nready = len(state["ready"])
                 if chunksize == -1:
                     ntasks = nready
-                    chunksize = -(ntasks // -num_workers)
+                    # Nothing may be ready while tasks are still running
+                    chunksize = max(1, -(ntasks // -num_workers))
                 else:
                     used_workers = -(len(state["running"]) // -chunksize)
                     avail_workers = max(num_workers - used_workers, 0)
